@@ -72,6 +72,55 @@ def touches(body, adts, field):
     return hits
 
 
+OBSERVERS = frozenset(["len", "is_empty", "capacity"])
+VIEWS = frozenset(["deref", "as_ref", "as_slice", "borrow"])
+
+
+def _only_observes(ctx, facts, fn):
+    """Every use of a thread-local list in `fn` asks it for its length (or emptiness): no system is reached, moved or run, the
+    list is not changed and not handed out."""
+    from .. import semq as Q
+    from ..worldrules import _deep_all
+    from ..terms import subterms
+    try:
+        ev, ends = Q.sem(ctx, facts, fn)
+    except Exception:
+        return False
+
+    def is_list(t):
+        f_, i_, base = Q.table_access(ev, t)
+        cf = Q.crate_fields(f_)
+        return bool(cf) and cf[-1][1] == "thread_local" and cf[-1][0] in (A.DISP, A.AD, A.DB)
+
+    def mentions(t):
+        return any(isinstance(s_, tuple) and s_ and s_[0] == "field" and s_[2] == "thread_local" and s_[3] in (A.DISP, A.AD, A.DB) for s_ in subterms(t))
+
+    seen = False
+    for e in ends:
+        for x in _deep_all(e.path.events):
+            if x[0] == "loop":
+                if x[1].source is not None and mentions(x[1].source):
+                    return False
+            elif x[0] == "store":
+                if mentions(x[2]) or mentions(x[3]):
+                    return False
+            elif x[0] == "call":
+                for a in x[3]:
+                    if mentions(a):
+                        if x[2].local or not (x[2].name in OBSERVERS or x[2].name in VIEWS) or not is_list(a) or a is not x[3][0]:
+                            return False
+                        seen = seen or x[2].name in OBSERVERS
+        if e.ret is not None:
+            r = e.ret
+            # the answer may be computed from the length, but the list itself (or a view of it) must not leave
+            for s_ in subterms(r):
+                if isinstance(s_, tuple) and s_ and s_[0] == "field" and s_[2] == "thread_local" and s_[3] in (A.DISP, A.AD, A.DB):
+                    inside_len = any(Q.is_call(ev, u, n) and mentions(u) for u in subterms(r) for n in OBSERVERS)
+                    if not inside_len or Q.strip(ev, r) == s_:
+                        return False
+    return seen
+
+
 def where(ctx, report, facts, config, rule="C12.WHERE"):
     prog = ctx.program(facts)
     n = 0
@@ -92,6 +141,9 @@ def where(ctx, report, facts, config, rule="C12.WHERE"):
             # a method of the builder that only registers (one boxed push on every way): nothing is run here
             ok = True
             why = "registration"
+        if not ok and _only_observes(ctx, facts, rootb):
+            ok = True
+            why = "only asks the list for its length"
         if not ok and rootb.key in audited_cone and not rootb.raw.get("pub"):
             # a private helper only the audited bodies call: where it runs is decided by C12.CTX on its callers
             ok = True
